@@ -21,7 +21,7 @@ use std::time::{Duration, Instant};
 use vbase::{Args, Report, Scratch};
 
 const RULE: &str = "after every append/truncate/reopen: number()-1 == |model| and retrieve(i) == model[i] byte for byte, \
-retrieve outside 1..n is None; for every crash state (head data file(s) and INDEX independently cut to every length \
+retrieve outside 1..n is None (also when random-access reads happen between the writes); for every crash state (head data file(s) and INDEX independently cut to every length \
 between synced and final size, new head file missing or empty at a roll-over): reopen is Ok, yields a prefix 1..n of the \
 appended items byte for byte with n >= #items whose data and 12-byte index entry lie inside the cuts (>= #synced items), \
 and further append/retrieve/truncate/reopen behave per the model on that prefix; same through Freezer with real blocks \
@@ -334,6 +334,8 @@ fn main() {
     report.require("files.op.append", q(1000, 20000));
     report.require("files.op.truncate.effective", q(100, 2000));
     report.require("files.op.reopen", q(100, 2000));
+    report.require("files.op.retrieve_single_random", q(100, 2000));
+    report.require("files.post_crash.with_random_reads", q(5000, 200_000));
     report.require("files.rollovers", q(300, 6000));
     report.require("files.append.zero_length", q(50, 1000));
     report.require("files.append.exactly_full_file", q(20, 400));
